@@ -8,6 +8,7 @@ import Dtaiverif.Model.Compact
 import Dtaiverif.Model.Path
 import Dtaiverif.Model.Matrix
 import Dtaiverif.Model.Dba
+import Dtaiverif.Model.SubseqIter
 
 open Lean
 
@@ -216,10 +217,33 @@ def opDba (j : Json) : Except String Json := do
   return Json.mkObj [("cells", Json.arr (out.map fun row =>
     Json.arr (row.map fun sc => Json.arr #[Json.num sc.1, Json.num sc.2]).toArray).toArray)]
 
+/-- op "subseq": matching function (internal, last row of the free-start matrix), start point of the
+match ending in every position (deterministic trace-back) and the k-best iterator -/
+def opSubseq (j : Json) : Except String Json := do
+  let s ← rawSettings j
+  let q ← getIntArr j "s1"
+  let ser ← getIntArr j "s2"
+  let r := q.size / s.ndim
+  let c := ser.size / s.ndim
+  let g := s.toGridPy r c q ser
+  let rows := (matU g r).map (·.toArray) |>.toArray
+  let M : Nat → Nat → Cost := fun I J => (rows.getD I #[]).getD J Cost.inf
+  let matching := (List.range c).map fun e => M r (e+1)
+  let starts := (List.range c).map fun e =>
+    match (backtrack M g.pen (r + e + 3) r (e+1)).getLast? with
+    | some p => p.2
+    | none => 0
+  let k := getOptNat j "k"
+  let out := kbestRun starts r (getNatD j "overlap" 0) (getOptNat j "minlength") (getOptNat j "maxlength") k
+    (2 * c + 2) (kbestInit matching r (getNatD j "overlap" 0)) 0
+  return Json.mkObj [("matching", Json.arr (matching.map costJ).toArray),
+    ("starts", Json.arr (starts.map fun (x : Nat) => Json.num (x : Nat)).toArray), ("yielded", cellsJ out)]
+
 def dispatch (j : Json) : Except String Json := do
   let op ← (j.getObjVal? "op") >>= (·.getStr?)
   let res ← match op with
     | "dtw" => opDtw j
+    | "subseq" => opSubseq j
     | "dba" => opDba j
     | "bounds" => opBounds j
     | "path" => opPath j
